@@ -41,8 +41,14 @@ pub enum PStep {
     Remove { buf: u16, at: u16, len: u16 },
     Release { buf: u16 },
     DropBuf { buf: u16, on_thread: bool },
-    /// Read again into an owned buffer.
-    ReRead { buf: u16 },
+    /// Read again into an owned buffer: `read` (0), `read_vectored` of a
+    /// one-element array (1) or `recv_vectored` (2): the vectored forms hand
+    /// the kernel an iovec built from the buffer's spare part.
+    ReRead {
+        buf: u16,
+        #[serde(default)]
+        form: u8,
+    },
     ClonePool,
     DropPoolHandle,
 }
@@ -245,7 +251,7 @@ impl<'c> Exec<'c> {
         }
         if req.sqe.flags & abi::IOSQE_BUFFER_SELECT == 0 {
             // Second read into an owned buffer.
-            let region = req.regions.iter().find(|r| r.what == "buffer").cloned();
+            let region = req.regions.iter().find(|r| r.what == "buffer" || r.what == "iovec-target").cloned();
             let size = region.as_ref().map_or(0, |r| r.len);
             // (Huge buffers only get their first pages written.)
             let n = ((frac as usize) * (size.min(8192) + 1)) >> 16;
@@ -472,7 +478,7 @@ fn pstep() -> impl Strategy<Value = PStep> {
         2 => (any::<u16>(), prop_oneof![2 => Just(0u16), 1 => any::<u16>()], any::<u16>()).prop_map(|(buf, at, len)| PStep::Remove { buf, at, len }),
         3 => any::<u16>().prop_map(|buf| PStep::Release { buf }),
         3 => (any::<u16>(), proptest::bool::weighted(0.3)).prop_map(|(buf, on_thread)| PStep::DropBuf { buf, on_thread }),
-        1 => any::<u16>().prop_map(|buf| PStep::ReRead { buf }),
+        2 => (any::<u16>(), 0u8..3).prop_map(|(buf, form)| PStep::ReRead { buf, form }),
         1 => Just(PStep::ClonePool),
         1 => Just(PStep::DropPoolHandle),
     ]
@@ -851,7 +857,7 @@ fn step(exec: &mut Exec<'_>, s: &PStep) {
             }
             exec.give_back(b, if *on_thread { "thread" } else { "drop" });
         }
-        PStep::ReRead { buf } => {
+        PStep::ReRead { buf, form } => {
             let c = exec.live_bufs();
             if c.is_empty() || exec.ops.iter().filter(|o| !o.done).count() >= 12 {
                 exec.ctx.skipped_steps += 1;
@@ -862,10 +868,23 @@ fn step(exec: &mut Exec<'_>, s: &PStep) {
             let afd = exec.world.fd(exec.fd);
             let fut = {
                 let _s = track::scope(track::TAG_A10);
-                Fut::Single(Box::pin(afd.read(owned)))
+                match form % 3 {
+                    0 => Fut::Single(Box::pin(afd.read(owned))),
+                    1 => {
+                        let f = afd.read_vectored([owned]);
+                        Fut::Single(Box::pin(async move { f.await.map(|[b]| b) }))
+                    }
+                    _ => {
+                        let f = afd.recv_vectored([owned]);
+                        Fut::Single(Box::pin(async move { f.await.map(|([b], _)| b) }))
+                    }
+                }
             };
             exec.ops.push(POp { kind: ReadKind::Read, fut: Some(fut), user_data: 0, serial: None, posted: Vec::new(), finished_posting: false, done: false, into_owned: Some(b) });
             exec.classes.push("reread");
+            if form % 3 != 0 {
+                exec.classes.push("reread-vectored");
+            }
         }
         PStep::ClonePool => {
             if let Some(p) = exec.pools.first() {
